@@ -108,6 +108,7 @@ func New(spec Spec) *Sys {
 	if err != nil {
 		panic("VERIF-INFRA pop3: " + err.Error())
 	}
+	p3.SetAddressPolicy(s.Policy) // as server.FullAssembly does
 	s.POP3 = p3
 	s.SMTP = smtp.NewServer(conf.SMTP, s.Mgr, s.Policy, s.Ext)
 	return s
